@@ -19,14 +19,15 @@ def pcLabel : Pc → String
   | .idle => "idle" | .dead => "dead"
   | .gRecv _ => "get:recv" | .gWait _ => "get:wait" | .gMake _ => "get:make" | .gFailSend => "get:failsend"
   | .gAct _ => "get:act" | .gAvail _ => "get:avail" | .gInUse _ => "get:inuse"
-  | .soLock _ => "so:lock" | .soCap _ => "so:cap" | .soCap2 _ => "so:cap2" | .soAdd _ _ => "so:add"
-  | .soAvail _ => "so:avail" | .soUnlock _ _ _ => "so:unlock"
+  | .soLock _ => "so:lock" | .soCap _ => "so:cap" | .soTry _ => "so:try" | .soCap2 _ => "so:cap2" | .soAdd _ _ => "so:add"
+  | .soAvail _ => "so:avail" | .soRelease _ _ => "so:release" | .soUnlock _ _ _ => "so:unlock"
   | .pAct => "put:act" | .pSend _ => "put:send" | .pInUse => "put:inuse" | .pAvail => "put:avail"
   | .cLoad => "sweep:load" | .cRecv _ _ => "sweep:recv" | .cAct _ _ => "sweep:act" | .cSend _ _ _ => "sweep:send"
   | .scLoad _ => "setcap:load" | .scCas _ _ => "setcap:cas"
-  | .sLoad _ => "scale:load" | .sCas _ _ => "scale:cas"
+  | .sLock _ => "scale:lock" | .sLoad _ => "scale:load" | .sCas _ _ => "scale:cas"
   | .sShrRecv _ _ _ => "scale:shrink-recv" | .sShrAct _ _ _ => "scale:shrink-act" | .sShrAvail _ _ _ => "scale:shrink-avail"
   | .sGrowSend _ _ _ => "scale:grow-send" | .sGrowAvail _ _ _ => "scale:grow-avail" | .sClose => "scale:close"
+  | .sUnlock => "scale:unlock"
   | .tLock => "tick:lock" | .tCap => "tick:cap" | .tTodo => "tick:todo" | .tUnlock => "tick:unlock"
   | .kLoad => "child:load" | .kDone => "child:done"
   | .clIdle => "close:idle" | .clCap => "close:cap"
@@ -34,7 +35,7 @@ def pcLabel : Pc → String
 def evStr : Ev → String
   | .none => "-" | .skip => "skip" | .spawn => "spawn"
   | .got r => s!"(got {r})" | .errClosed => "err-closed" | .errTimeout => "err-timeout"
-  | .errFactory => "err-factory" | .sErrRange => "ok" | .sErrClosed => "ok" | .okPut => "ok-put" | .ok => "ok"
+  | .errFactory => "err-factory" | .sErrRange => "ok" | .okPut => "ok-put" | .ok => "ok"
   | .panicPutFull => "panic-put-full" | .panicPutClosed => "panic-put-closed"
   | .panicSendClosed => "panic-send-closed" | .panicCloseClosed => "panic-close-closed"
 
@@ -164,9 +165,6 @@ def model (req : Sexp) : String :=
 structure Obs where
   labels : List String          -- per thread: where it is parked
   held : List (List Nat)        -- per thread: resources the client holds
-  targets : List Int            -- per thread inside a ScaleCapacity shrink loop: the capacity it swapped in
-  prevCap : Int                 -- capacity after the previous step
-  raced : Bool := false         -- the capacity changed while a non-closing shrink was pending
   dead : Bool := false
   verdict : Option String := none
 
@@ -177,44 +175,24 @@ def hasDup : List Nat → Bool
   | [] => false
   | x :: xs => xs.contains x || hasDup xs
 
-def isShrinkLabel (l : String) : Bool :=
-  l == "scale:shrink-recv" || l == "scale:shrink-act" || l == "scale:shrink-avail"
-
-/-- Is some thread other than `i` inside the shrink loop of a ScaleCapacity
-    that lowered the capacity to a non-zero value? -/
-def shrinkPending (o : Obs) (i : Nat) : Bool :=
-  (List.range o.labels.length).any fun j =>
-    j != i && isShrinkLabel (o.labels.getD j "") && o.targets.getD j 0 != 0
-
-/-- Names the failure class.  ScaleCapacity lowers `capacity` first and drains
-    the channel afterwards; a capacity change (scale-out, SetCapacity, Close)
-    during that window is the known defect of the pinned pool, every other
-    failure keeps the generic class. -/
-def classify (o : Obs) (base : String) : String :=
-  if o.raced then base ++ "-after-capacity-change-during-shrink" else base
-
+/-- One record of the observed trace against the four clauses of C24. -/
 def judgeRec (maxCap : Int) (o : Obs) (r : Sexp) : Obs :=
   if o.verdict.isSome then o else
   match r with
   | .list [i, ev, .atom label, .list held, cap, _avail, inuse, _active, _base, len] =>
     match i.asNat?, cap.asInt?, inuse.asInt?, len.asInt?, held.mapM Sexp.asNat? with
     | some i, some cap, some inuse, some len, some held =>
-      let raced := o.raced || (cap != o.prevCap && shrinkPending o i)
-      let targets :=
-        if label == "scale:shrink-recv" && o.labels.getD i "" == "scale:cas" then setNth o.targets i cap 0
-        else o.targets
       let labels := setNth o.labels i label "idle"
       let labels := if ev == .atom "spawn" then labels ++ ["child:load"] else labels
       let helds := setNth o.held i held []
-      let o := { o with labels := labels, held := helds, targets := targets, prevCap := cap, raced := raced,
-                        dead := o.dead || label == "dead" }
+      let o := { o with labels := labels, held := helds, dead := o.dead || label == "dead" }
       let all := helds.flatten
-      if ev == .atom "panic-put-full" then { o with verdict := some (classify o "put-into-full-pool") }
-      else if ev == .atom "panic-put-closed" then { o with verdict := some (classify o "put-into-closed-pool") }
-      else if (all.length : Int) > maxCap then { o with verdict := some (classify o "handed-out-exceeds-max") }
+      if ev == .atom "panic-put-full" then { o with verdict := some "put-into-full-pool" }
+      else if ev == .atom "panic-put-closed" then { o with verdict := some "put-into-closed-pool" }
+      else if (all.length : Int) > maxCap then { o with verdict := some "handed-out-exceeds-max" }
       else if hasDup all then { o with verdict := some "resource-issued-twice" }
       else if !o.dead && labels.all (· == "idle") && len + inuse != cap then
-        { o with verdict := some (classify o "quiescent-idle-plus-inuse-differs-from-capacity") }
+        { o with verdict := some "quiescent-idle-plus-inuse-differs-from-capacity" }
       else o
     | _, _, _, _, _ => { o with verdict := some "unparsable" }
   | .list [.atom "end", _] => o
@@ -228,7 +206,7 @@ def oracle (req out : Sexp) : String :=
     match out with
     | .list [.atom "err", .atom "config"] => "ok"
     | .list (.atom "trace" :: recs) =>
-      let o0 : Obs := { labels := c.progs.map fun _ => "idle", held := c.progs.map fun _ => [], targets := [], prevCap := c.cap }
+      let o0 : Obs := { labels := c.progs.map fun _ => "idle", held := c.progs.map fun _ => [] }
       match (recs.foldl (judgeRec c.max) o0).verdict with
       | some v => "viol " ++ v
       | none => "ok"
